@@ -525,7 +525,9 @@ var requiredClasses = func() []string {
 	if os.Getenv("VERIF_DESYNC_BIN") != "" { // the commands themselves (the registered plan builds the binary)
 		req = append(req, "mode:cli", "consumer:cli-cat:whole", "consumer:cli-cat:window", "consumer:cli-cat:stdout", "consumer:cli-cat:file",
 			"consumer:cli-untar:gnu-tar", "consumer:cli-untar:disk", "consumer:cli-untar:victim-chunk-metadata-only",
-			"consumer:cli-untar:gnu-tar:victim-chunk-metadata-only", "consumer:cli-extract")
+			"consumer:cli-untar:gnu-tar:victim-chunk-metadata-only", "consumer:cli-extract",
+			"cli:option:none", "cli:option:"+optTrustInsecure, "cli:option:"+optErrorRetry, "cli:option:"+optRetryInterval, "cli:option:"+optVerbose,
+			"cli:option:"+optCfgSkipOther, "cli:option:"+optCfgSkipThis, "cli:unverified-run-succeeded")
 	}
 	for _, b := range quickBackends {
 		req = append(req, "backend:"+b+":compressed")
